@@ -49,6 +49,7 @@ func runC01(c *Ctx) {
 	c01Small(c)
 	nilListIsNullOnly(c)
 	layoutAgreement(c)
+	genRound2(c)
 	adapterWritesOnError(c)
 	directiveArgAssertChecked(c)
 }
